@@ -32,7 +32,7 @@ ASSUMPTIONS = [
     'could not be decided offline and are unjudged as well',
     'the tolerated differences are exactly those of the project\'s compare_output (vendored copy)',
 ]
-KINDS = {'corpus': (288, 864, 0), 'compiled': (18, 44, 1), 'descr': (60, 60, 2), 'dwdescr': (40, 40, 1)}
+KINDS = {'corpus': (288, 864, 0), 'compiled': (18, 44, 1), 'descr': (60, 60, 2), 'dwdescr': (40, 40, 1), 'generated': (120, 1500, 4)}
 FLOOR = {'quick': 150, 'thorough': 600}
 CASE_TIMEOUT = 1200
 OPTIONS = ['-e', '-d', '-s', '-n', '-r', '-x.text', '-p.shstrtab', '-V', '--debug-dump=info', '--debug-dump=decodedline',
@@ -817,6 +817,41 @@ def run_dwdescr(idx, rng, sh):
         judge_blocks(sh, label, option, img, s, is_start, max(2, n // 2))
 
 
+# ---------------------------------------------------------------- generated files (envelope generators)
+def gen_families():
+    from ..gen import dynobj
+    return [('versions', ['-V'], dynobj.gen_versions)]
+
+
+def mask(line):
+    return re.sub(r'0x[0-9a-f]+|\b[0-9a-f]{6,}\b|\d+', '#', ' '.join(line.split()))[:70]
+
+
+def run_generated(idx, rng, sh):
+    fams = gen_families()
+    name, options, gen = fams[idx % len(fams)]
+    img, desc = gen(rng)
+    with oracles.Scratch() as s:
+        p = s.write('g_%s_%d.elf' % (name, idx), img)
+        for option in options:
+            res, msg, n = run_pair(p, option)
+            sh.count('pairs_run')
+            if res == 'skip':
+                sh.skip(msg)
+            elif res == 'ok':
+                sh.held(sig=('generated', name, option, idx) if min(n) >= 3 else None)
+                sh.count('pairs_equal')
+                sh.sample({'family': name, 'option': option, 'lines': n[0], 'shape': jsonable_small(desc)}, kind='generated:' + name)
+            else:
+                first = msg.splitlines()[1] if res == 'diff' and len(msg.splitlines()) > 1 else msg
+                sh.violation('C18:generated %s %s: %s: %s' % (name, option, 'differs at' if res == 'diff' else 'fails', mask(first.strip('<>'))),
+                             message=msg[:700], shape=jsonable_small(desc), image_hex=img.hex() if len(img) < 6000 else None)
+
+
+def jsonable_small(d):
+    return json.loads(json.dumps(d, default=str))
+
+
 def first_phdr_line(out):
     lines = out.splitlines()
     for i, ln in enumerate(lines):
@@ -855,6 +890,8 @@ def run_case(kind, idx, rng, sh):
         run_compiled(idx, rng, sh)
     elif kind == 'dwdescr':
         run_dwdescr(idx, rng, sh)
+    elif kind == 'generated':
+        run_generated(idx, rng, sh)
     else:
         run_descr(idx, rng, sh)
 
